@@ -1086,6 +1086,9 @@ func (vm *VirtualMachine) importModule(ctx context.Context, name string) (*objec
 		vm.unwindStack(baseSP)
 		return nil, err
 	}
+	// The value of the module's last expression statement is not a result of
+	// the import: leave nothing of the module's evaluation on the stack
+	vm.unwindStack(baseSP)
 	module.UseGlobals(code.Globals)
 	// Store the loaded module but ensure we don't modify the map during a clone
 	vm.cloneMutex.Lock()
